@@ -8,7 +8,10 @@ RaisedOnlyOnFault and termination (Ends / Termination) for every fault point x e
 Binding: TLC behaviours with faults are replayed into the real stages (M2); every (entry point x faulty item x
 worker count x schedule policy) is explored on the real code; one real-process run per entry point.
 """
+import collections
+import contextlib
 import os
+import queue as _queue
 
 from lib import repo, simmp, simrun, guard
 from checks import c01, c03
@@ -19,6 +22,138 @@ WALK_CFG = c01.CFG
 
 
 _ROT = [0]
+
+# ------------------------------------------------------------------------------------------------
+# totality of the check itself: every simulated run ends with a verdict
+# ------------------------------------------------------------------------------------------------
+# The scheduler (lib/simmp.py) waits until "every live actor is blocked at a sync point".  Library code that blocks or spins
+# on something that is NOT a sync point (a helper thread and the parent exchanging items over a plain queue.Queue, a loop
+# polling a counter with time.sleep) never reaches one, and the scheduler's wait would never end.  Two measures:
+#   * in-process thread queues (the stdlib `queue` module, as seen from the toasty modules with parallel code) are simulated
+#     too during a run: their put / get become sync points of the calling actor (SimThreadQueue);
+#   * every simulated run has a wall-clock backstop (far above its normal duration of well under a second); a run stopped
+#     by it is reported as drift ("could not be scheduled"), and after two of them the remaining simulated runs of that
+#     entry point are skipped - the real-process runs then carry the verdict for it.
+SIM_BACKSTOP = 40.0
+REPLAY_BACKSTOP = 400.0
+_STUCK = collections.Counter()
+_SKIPPED = collections.Counter()
+
+
+class SimThreadQueue(object):
+    """queue.Queue between the threads (actors) of one simulated process; put / get are sync points."""
+    _n = [0]
+
+    def __init__(self, maxsize=0):
+        SimThreadQueue._n[0] += 1
+        self.name = "tq%d" % SimThreadQueue._n[0]
+        self.maxsize = maxsize
+        self.items = collections.deque()
+
+    def put(self, item, block=True, timeout=None):
+        def outs():
+            if self.maxsize <= 0 or len(self.items) < self.maxsize:
+                def eff():
+                    self.items.append(item)
+                    simmp._bump()
+                    return True
+                return {"ok": eff}
+            return {"full_timeout": lambda: False} if ((not block) or timeout is not None) else {}
+        if not simmp.S.sync(("tput", self.name), outs):
+            raise _queue.Full()
+
+    def get(self, block=True, timeout=None):
+        def outs():
+            if self.items:
+                def eff():
+                    simmp._bump()
+                    return ("item", self.items.popleft())
+                return {"item": eff}
+            return {"empty": lambda: ("empty", None)} if ((not block) or timeout is not None) else {}
+        kind, v = simmp.S.sync(("tget", self.name), outs)
+        if kind == "empty":
+            raise _queue.Empty()
+        return v
+
+    def put_nowait(self, item):
+        return self.put(item, False)
+
+    def get_nowait(self):
+        return self.get(False)
+
+    def qsize(self):
+        return len(self.items)
+
+    def empty(self):
+        return not self.items
+
+    def full(self):
+        return 0 < self.maxsize <= len(self.items)
+
+    def task_done(self):
+        pass
+
+
+class _QueueModuleShim(object):
+    Queue = SimThreadQueue
+
+    def __getattr__(self, name):
+        return getattr(_queue, name)
+
+
+@contextlib.contextmanager
+def thread_queues_simulated():
+    import importlib
+    saved = []
+    for mn in ("toasty.par_util", "toasty.pyramid", "toasty.transform", "toasty.multi_tan", "toasty.multi_wcs"):
+        try:
+            mod = importlib.import_module(mn)
+        except Exception:  # noqa
+            continue
+        for name, val in list(vars(mod).items()):
+            if val is _queue:
+                saved.append((mod, name, val))
+                setattr(mod, name, _QueueModuleShim())
+            elif val is _queue.Queue:
+                saved.append((mod, name, val))
+                setattr(mod, name, SimThreadQueue)
+    try:
+        yield
+    finally:
+        for mod, name, val in saved:
+            setattr(mod, name, val)
+
+
+def sim_run(ctx, group, label, main_fn, choose, **kw):
+    """simrun.run with the measures above.  -> Outcome, or None if the run could not be scheduled / was skipped."""
+    if _STUCK[group] >= 2:
+        _SKIPPED[group] += 1
+        return None
+    try:
+        with guard.time_limit(SIM_BACKSTOP):
+            with thread_queues_simulated():
+                return simrun.run(main_fn, choose, **kw)
+    except guard.TimeLimitExceeded:
+        _STUCK[group] += 1
+        ctx.drift("%s: the simulated run did not reach a state in which every process is blocked at a multiprocessing primitive within %d s "
+                  "(the code waits on something the scheduler does not model: a plain thread, a sleep loop); this run has no verdict%s"
+                  % (label, SIM_BACKSTOP, "; the remaining simulated runs of %s are skipped" % group if _STUCK[group] >= 2 else ""))
+        return None
+
+
+def guarded_replay(ctx, group, label, fn):
+    """A replay of TLC behaviours (many simulated runs inside c01 / c03) with one wall-clock backstop around all of them."""
+    if _STUCK[group] >= 2:
+        _SKIPPED[group] += 1
+        return None
+    try:
+        with guard.time_limit(REPLAY_BACKSTOP):
+            with thread_queues_simulated():
+                return fn()
+    except guard.TimeLimitExceeded:
+        _STUCK[group] += 2
+        ctx.drift("%s: the replay of TLC behaviours did not end within %d s (a simulated run that cannot be scheduled); no verdict from it" % (label, REPLAY_BACKSTOP))
+        return None
 
 
 def next_flavour(ctx):
@@ -45,7 +180,7 @@ def judge_fault(ctx, label, key, out, log, rep):
     return ctx.violation(key + ":item-never-run", "%s: returned normally although the faulty item was never even started" % label, rep)
 
 
-def explore_stage_faults(ctx, stage, nws, policies, runs, items_subset=None, all_items_fail=False):
+def explore_stage_faults(ctx, stage, nws, policies, runs, items_subset=None, all_items_fail=False, cli_progress=False):
     items = stage.items()
     todo = items if items_subset is None else [items[i] for i in items_subset if i < len(items)]
     if all_items_fail:
@@ -57,14 +192,22 @@ def explore_stage_faults(ctx, stage, nws, policies, runs, items_subset=None, all
                 for k in range(runs):
                     log = []
                     stage.flavour = next_flavour(ctx)
-                    out = simrun.run(stage.main(nw, log, faults=fset), simrun.POLICIES[pol](ctx.rng))
                     flav = stage.flavour
+                    label = "%s, %s fault at %s, %d workers, %s" % (stage.name, flav, it, nw, pol)
+                    if cli_progress:
+                        label += " (cli_progress=True)"
+                        with cli_progress_forced(True), stderr_silenced():
+                            out = sim_run(ctx, stage.key, label, stage.main(nw, log, faults=fset), simrun.POLICIES[pol](ctx.rng))
+                    else:
+                        out = sim_run(ctx, stage.key, label, stage.main(nw, log, faults=fset), simrun.POLICIES[pol](ctx.rng))
                     stage.flavour = "plain"
+                    if out is None:
+                        continue
                     ctx.count()
                     fs = any(tag == "cb_start" and p[0] in fset for tag, p, who in log)
                     rep = {"stage": stage.name, "fault_item": it, "fault_flavour": flav, "workers": nw, "policy": pol, "status": out.status, "fault_started": fs,
                            "seed": ctx.seed, "trace_tail": [list(map(str, t)) for t in out.trace[-40:]]}
-                    judge_fault(ctx, "%s, %s fault at %s, %d workers, %s" % (stage.name, flav, it, nw, pol), "C19:%s" % stage.key, out, log, rep)
+                    judge_fault(ctx, label, "C19:%s" % stage.key, out, log, rep)
                     ctx.distinct(("fault", stage.key, repr(it), nw, tuple((a, o) for a, _op, o in out.trace)))
 
 
@@ -91,7 +234,10 @@ def explore_walk_faults(ctx, depth, confs, nws, policies, runs, only_level=None,
                     for k in range(runs):
                         log = []
                         flav = next_flavour(ctx)
-                        out = simrun.run(c01.walk_main(depth, acc, apex, nw, log, faults={it}, generic=generic, flavour=flav), simrun.POLICIES[pol](ctx.rng))
+                        out = sim_run(ctx, "walk", "parallel walk depth %d apex %s, %s fault at %s, %d workers, %s" % (depth, apex, flav, it, nw, pol),
+                                      c01.walk_main(depth, acc, apex, nw, log, faults={it}, generic=generic, flavour=flav), simrun.POLICIES[pol](ctx.rng))
+                        if out is None:
+                            continue
                         ctx.count()
                         fs = any(tag == "cb_start" and p == it for tag, p, who in log)
                         rep = {"stage": "walk", "depth": depth, "accept": sorted(acc), "apex": apex, "fault_item": it, "workers": nw, "policy": pol,
@@ -126,7 +272,10 @@ def explore_walk_many_faults(ctx, depth, confs, nws, policies, runs):
                 for k in range(runs):
                     log = []
                     flav = FLAVOURS[ctx.rng.randrange(len(FLAVOURS))]
-                    out = simrun.run(c01.walk_main(depth, acc, apex, nw, log, faults=fset, generic=generic, flavour=flav), simrun.POLICIES[pol](ctx.rng))
+                    out = sim_run(ctx, "walk", "parallel walk depth %d apex %s, %s fault at every level-%d operation, %d workers, %s" % (depth, apex, flav, depth - 1, nw, pol),
+                                  c01.walk_main(depth, acc, apex, nw, log, faults=fset, generic=generic, flavour=flav), simrun.POLICIES[pol](ctx.rng))
+                    if out is None:
+                        continue
                     ctx.count()
                     fs = any(tag == "cb_start" and p in fset for tag, p, who in log)
                     rep = {"stage": "walk", "depth": depth, "accept": sorted(acc), "apex": apex, "fault_items": sorted(fset), "fault_flavour": flav, "workers": nw,
@@ -164,9 +313,192 @@ def real_fault_run(ctx, name, fn):
         ctx.violation("C19:%s:swallowed-real" % name, "real-process %s returned normally although a callback raised in a worker" % name, rep)
 
 
+# ------------------------------------------------------------------------------------------------
+# the error on the PARENT's side: loading the k-th input image fails while the workers are running
+# ------------------------------------------------------------------------------------------------
+
+class InputLoadError(OSError):
+    pass
+
+
+@contextlib.contextmanager
+def failing_images(k, fired):
+    """SimpleFitsCollection.images() raises instead of delivering its k-th image (a truncated / vanished input file),
+    whichever thread of the parent draws from it."""
+    from toasty import collection
+
+    def make(orig):
+        def images(self):
+            def gen():
+                for i, img in enumerate(orig(self)):
+                    if i == k:
+                        fired.append(i)
+                        S = simmp.S
+                        if S is not None and S.me() is not None:
+                            simmp.cb_sync("input_fail", (i,), None)
+                        raise InputLoadError("injected: input image %d cannot be read (file truncated)" % i)
+                    yield img
+            return gen()
+        return images
+    with c03.patched(collection.SimpleFitsCollection, "images", make):
+        yield
+
+
+@contextlib.contextmanager
+def cli_progress_forced(on):
+    """tile() called the way every CLI command calls it: cli_progress=True (progress reporting is a second place, next to the
+    queue protocol, where the parent may wait)."""
+    if not on:
+        yield
+        return
+    from toasty import multi_tan, multi_wcs
+    mk = lambda orig: (lambda self, *a, **k: orig(self, *a, **dict(k, cli_progress=True)))      # noqa: E731
+    with c03.patched(multi_tan.MultiTanProcessor, "tile", mk), c03.patched(multi_wcs.MultiWcsProcessor, "tile", mk):
+        yield
+
+
+@contextlib.contextmanager
+def stderr_silenced():
+    devnull = os.open(os.devnull, os.O_WRONLY)
+    saved = os.dup(2)
+    os.dup2(devnull, 2)
+    try:
+        yield
+    finally:
+        os.dup2(saved, 2)
+        os.close(saved)
+        os.close(devnull)
+
+
+def real_stage(ctx, stage, parallel, wrap, faults=(), backstop=90):
+    """stage with real worker processes inside the context manager wrap(); -> 'raised' | 'returned' | 'hang' | None (machinery)."""
+    d = ctx.mkdtemp("c19real")
+    stage.real_dir = d
+    if faults:
+        # real-process mode of c03's stages has no fault hook: the callback of a faulty item raises in the worker
+        orig_cb = stage._cb_real
+
+        def cb_real(key, extra):
+            if key in faults:
+                raise ValueError("injected fault at %r" % (key,))
+            return orig_cb(key, extra)
+        stage._cb_real = cb_real
+    fn = stage.main(parallel, None)
+
+    def body():
+        import multiprocessing as mp
+        try:
+            with simrun.quiet(), wrap():
+                try:
+                    fn()
+                    return "returned"
+                except Exception as e:  # noqa
+                    return "raised:%r" % (e,)
+        finally:
+            # the unchanged code leaves its daemonic workers polling when the parent raises: do not leave them behind
+            for c in mp.active_children():
+                try:
+                    c.kill()
+                except Exception:  # noqa
+                    pass
+    try:
+        with stderr_silenced():
+            kind, val = guard.run_guarded(body, backstop)
+    finally:
+        stage.real_dir = None
+        stage.__dict__.pop("_cb_real", None)
+    ctx.count()
+    if kind == "timeout":
+        return "hang"
+    if kind == "raised":
+        ctx.machinery("real-process run of %s broke: %s" % (stage.name, val))
+        return None
+    return "raised" if val.startswith("raised") else "returned"
+
+
+def explore_input_faults(ctx, stage, nws, policies, runs, real_nws, cli_progress=False):
+    """Loading the k-th input fails in the parent, for every k: tile() must raise, in serial mode, under the scheduler and with
+    real processes."""
+    n = len(stage.items())
+    key = "C19:%s" % stage.key
+    how = " (cli_progress=True)" if cli_progress else ""
+
+    def judge(status, label, rep, fired):
+        if not fired:
+            ctx.drift("%s: images() was never drawn up to the failing input - no fault happened" % label)
+        elif status == "returned":
+            ctx.violation(key + ":input-error-swallowed", "%s: loading an input image raised in the parent but tile() returned normally "
+                          "(that image and the following ones are missing from the pyramid)" % label, rep)
+        elif status == "hang":
+            ctx.violation(key + ":input-error-hang", "%s: loading an input image raised in the parent but tile() never ends" % label, rep)
+        elif status == "limit":
+            ctx.drift("%s: step limit reached" % label)
+    for k in range(n):
+        # serial reference
+        fired = []
+        label = "%s%s, input %d of %d unreadable, serial" % (stage.name, how, k, n)
+        with failing_images(k, fired), cli_progress_forced(cli_progress), stderr_silenced():
+            out = sim_run(ctx, stage.key, label, stage.main(1, []), simrun.pol_random(ctx.rng))
+        if out is not None:
+            ctx.count()
+            judge(out.status, label, {"stage": stage.name, "input": k, "parallel": 1, "status": out.status}, fired)
+        for nw in nws:
+            for pol in policies:
+                for _ in range(runs):
+                    fired = []
+                    label = "%s%s, input %d of %d unreadable, %d workers, %s" % (stage.name, how, k, n, nw, pol)
+                    with failing_images(k, fired), cli_progress_forced(cli_progress), stderr_silenced():
+                        out = sim_run(ctx, stage.key, label, stage.main(nw, []), simrun.POLICIES[pol](ctx.rng))
+                    if out is None:
+                        continue
+                    ctx.count()
+                    rep = {"stage": stage.name, "input": k, "workers": nw, "policy": pol, "status": out.status, "cli_progress": cli_progress, "seed": ctx.seed,
+                           "trace_tail": [list(map(str, t)) for t in out.trace[-40:]]}
+                    judge(out.status, label, rep, fired)
+                    ctx.distinct(("input-fault", stage.key, k, nw, cli_progress, tuple((a, o) for a, _op, o in out.trace)))
+        for nw in (real_nws(k) if callable(real_nws) else real_nws):
+            label = "%s%s, input %d of %d unreadable, %d real worker processes" % (stage.name, how, k, n, nw)
+            # `fired` lives in the forked child: a marker file tells the parent
+            mark = os.path.join(ctx.mkdtemp("c19mark"), "fired")
+
+            @contextlib.contextmanager
+            def wrap():
+                fl = []
+                with failing_images(k, fl), cli_progress_forced(cli_progress):
+                    try:
+                        yield
+                    finally:
+                        if fl:
+                            open(mark, "w").close()
+            status = real_stage(ctx, stage, nw, wrap)
+            if status is None:
+                continue
+            ctx.distinct(("input-fault-real", stage.key, k, nw, cli_progress))
+            judge(status, label, {"stage": stage.name, "input": k, "workers": nw, "real_processes": True, "status": status, "cli_progress": cli_progress},
+                  os.path.exists(mark) or status == "hang")
+
+
+def explore_real_worker_faults(ctx, stage, nw, items, cli_progress):
+    """A callback raising in a real worker process, the entry point called the way the CLI calls it."""
+    key = "C19:%s" % stage.key
+    how = " (cli_progress=True)" if cli_progress else ""
+    for it in items:
+        label = "%s%s, fault at item %s, %d real worker processes" % (stage.name, how, it, nw)
+        status = real_stage(ctx, stage, nw, lambda: cli_progress_forced(cli_progress), faults={it}, backstop=60)
+        ctx.distinct(("real-fault", stage.key, it, nw, cli_progress))
+        rep = {"stage": stage.name, "fault_item": it, "workers": nw, "real_processes": True, "status": status, "cli_progress": cli_progress}
+        if status == "hang":
+            ctx.violation(key + ":hang-real", "%s: a callback raised in a worker but tile() did not end within the 60 s backstop" % label, rep)
+            break       # one backstop per entry point is enough
+        elif status == "returned":
+            ctx.violation(key + ":swallowed-real", "%s: a callback raised in a worker but tile() returned normally" % label, rep)
+
+
 def run(ctx):
     repo.setup(ctx)
     q = ctx.quick
+    global REPLAY_BACKSTOP
+    REPLAY_BACKSTOP = 400.0 if q else 2400.0
     ctx.rule = ("fault = an exception raised by the callback at one chosen item; TLC explores every fault item x every interleaving of the WorkQueue and WalkPar "
                 "specs; TLC behaviours containing a fault are replayed into the real code; every (entry point, faulty item, worker count, schedule policy) "
                 "combination listed is run on the real code under the deterministic scheduler, and once per entry point with real processes. distinct = "
@@ -207,8 +539,8 @@ def run(ctx):
     # (2) replay of fault behaviours
     stages = [c03.LeafStage("toast depth 1", 1), c03.TransformStage(1)]
     for st in stages:
-        c03.replay_stage(ctx, st, 2, 40 if q else 300, 150, faultsets="AnyOneFault")
-    c01.replay_walk(ctx, 2, 2, fam, [c01.ROOT, (1, 1, 0)], 50 if q else 400, faults="one")
+        guarded_replay(ctx, st.key, "replay into %s" % st.name, lambda st=st: c03.replay_stage(ctx, st, 2, 40 if q else 300, 150, faultsets="AnyOneFault"))
+    guarded_replay(ctx, "walk", "replay into the parallel walk", lambda: c01.replay_walk(ctx, 2, 2, fam, [c01.ROOT, (1, 1, 0)], 50 if q else 400, faults="one"))
     # (3) exploration: every item as the faulty one
     pols = ["random", "starve-feeder", "eager-timeout", "workers-last", "main-last"]
     acc5 = frozenset(l1[:2]) | {(2, 0, 0), (2, 1, 1), (2, 2, 0), (2, 3, 0), (2, 3, 1)}
@@ -222,11 +554,21 @@ def run(ctx):
         explore_stage_faults(ctx, c03.TransformStage(2), [2, 3], pols, 2)
     explore_stage_faults(ctx, c03.MultiTanStage(ctx, 3), [2], ["random", "workers-last", "starve-feeder"], 1 if q else 5)
     explore_stage_faults(ctx, c03.MultiWcsStage(ctx, 3), [2], ["random", "workers-last", "starve-feeder"], 1 if q else 5)
+    # the error on the parent's side (an input image that cannot be loaded), and the entry points called as the CLI calls them
+    for st in (c03.MultiTanStage(ctx, 3), c03.MultiWcsStage(ctx, 3)):
+        explore_input_faults(ctx, st, [2, 3], ["random", "workers-last"] if q else ["random", "workers-last", "main-last", "starve-feeder"], 1 if q else 4,
+                             real_nws=(lambda k: [2, 3] if k == 2 else [2]) if q else [2, 3])
+        explore_input_faults(ctx, st, [2], ["random"], 1 if q else 3, real_nws=(lambda k: [2] if k == 1 else []) if q else [2, 3], cli_progress=True)
+        explore_stage_faults(ctx, st, [2], ["random", "late-timeout"], 1 if q else 3, cli_progress=True)
+        explore_real_worker_faults(ctx, st, 2, [2] if q else [0, 1, 2], cli_progress=True)
+        if not q:
+            explore_real_worker_faults(ctx, st, 3, [0, 2], cli_progress=False)
     # images larger than the OS pipe: one fault, and every image failing (all workers dead with images still buffered)
     mtbig = c03.MultiTanStage(ctx, 5, shape=(150, 160))
     explore_stage_faults(ctx, mtbig, [2], ["random", "late-timeout"], 1 if q else 4, items_subset=[0, 2, 4])
     explore_stage_faults(ctx, mtbig, [2, 3], ["random", "workers-last", "late-timeout"], 1 if q else 4, all_items_fail=True)
-    c03.replay_stage(ctx, c03.MultiTanStage(ctx, 4, shape=(150, 160)), 2, 15 if q else 150, 150, faultsets="AnyFaults", pipecap=0)
+    guarded_replay(ctx, "multi_tan", "replay into multi_tan (images larger than the pipe)",
+                   lambda: c03.replay_stage(ctx, c03.MultiTanStage(ctx, 4, shape=(150, 160)), 2, 15 if q else 150, 150, faultsets="AnyFaults", pipecap=0))
     # many items, one worker-pair, tiny window: all workers can be dead while the queue is full
     explore_stage_faults(ctx, c03.LeafStage("toast depth 2", 2), [2], ["workers-last", "main-first", "random"], 1 if q else 4, items_subset=[0, 1, 7, 15])
     # every item fails: every worker dies while the producer still has items to put on the full queue
@@ -310,4 +652,6 @@ def run(ctx):
         real_fault_run(ctx, "visit_leaves", real_leaves)
         real_fault_run(ctx, "transform", real_transform)
     ctx.assume("a failing callback terminates its worker process with a non-zero exit status (true for uncaught Python exceptions and for signals)")
+    if _STUCK:
+        ctx.note("simulated_runs_without_verdict", "%s stopped by the wall-clock backstop, %s skipped after that" % (dict(_STUCK), dict(_SKIPPED)))
     ctx.assume("multiprocessing primitives behave like lib/simmp.py's fakes; the real-process runs sample that")
